@@ -883,48 +883,55 @@ AUDITED_CALLS = ("add_task", "handle_close", "send_continue", "_flush_exception"
 
 SIGNATURE = {
     "channel.HTTPChannel.readable":
-        "R:will_close R:close_when_flushed R:requests R:total_outbufs_len",
+        'R:will_close R:close_when_flushed R:requests R:total_outbufs_len',
     "channel.HTTPChannel.writable":
-        "R:total_outbufs_len R:will_close R:close_when_flushed",
+        'R:total_outbufs_len R:will_close R:close_when_flushed',
     "channel.HTTPChannel.handle_write":
-        "if(R:requests) elif(R:total_outbufs_len) call:_flush_exception if(R:close_when_flushed R:total_outbufs_len) "
-        "{ W:close_when_flushed=False W:will_close=True } if(R:will_close) { call:handle_close }",
+        'if(R:requests) { } elif(R:total_outbufs_len) { } else { } call:_flush_exception '
+        'if(R:close_when_flushed R:total_outbufs_len) { W:close_when_flushed=False W:will_close=True } '
+        'if(R:will_close) { call:handle_close }',
     "channel.HTTPChannel._flush_exception":
-        "if() { try { } except(OSError) { W:will_close=True } except(Exception) { W:will_close=True } }",
+        'if() { try { } except(OSError) { if() { } W:will_close=True } except(Exception) { W:will_close=True '
+        '} }',
     "channel.HTTPChannel.handle_read":
-        "try { } except(OSError) { call:handle_close } if() { call:received } else { W:connected=False }",
+        'try { } except(OSError) { if() { } call:handle_close } if() { call:received } else { '
+        'W:connected=False }',
     "channel.HTTPChannel.received":
-        "if() { } with(requests_lock) { if(R:will_close R:close_when_flushed) { } while() { if() { } "
-        "if(R:requests) { call:send_continue } if() { if() { R:requests if(R:requests) { call:add_task } } } if() { } } }",
+        'if() { } with(requests_lock) { if(R:will_close R:close_when_flushed) { } while() { if() { } '
+        'call:received if(R:requests) { call:send_continue } if() { if() { R:requests if(R:requests) { '
+        'call:add_task } } } if() { } } }',
     "channel.HTTPChannel.handle_close":
-        "with(outbuf_lock) { for() { try { } except(Exception) { } } W:connected=False } call:close",
+        'with(outbuf_lock) { for() { try { call:close } except(Exception) { } } W:connected=False } '
+        'call:close',
     "channel.HTTPChannel.service":
-        "R:requests if() { } else { } try { if(R:connected) { call:service } else { } } except(ClientDisconnected) { } "
-        "except(Exception) { if() { if() { } else { } try { } except(KeyError) { } try { call:service } "
-        "except(ClientDisconnected) { } } else { } } "
-        "if() { with(requests_lock) { W:close_when_flushed=True for(R:requests) { call:close } W:requests=[] } } "
-        "else { if(R:requests) { call:_flush_outbufs_below_high_watermark } if() { } call:close "
-        "with(requests_lock) { R:requests if(R:connected R:requests) { call:add_task } "
-        "elif(R:connected) { call:send_continue } } } if(R:connected) { call:pull_trigger }",
+        'R:requests if() { } else { } try { if(R:connected) { call:service } else { } } '
+        'except(ClientDisconnected) { } except(Exception) { if() { if() { } else { } try { } except(KeyError) '
+        '{ } try { call:service } except(ClientDisconnected) { } } else { } } if() { with(requests_lock) { '
+        'W:close_when_flushed=True for(R:requests) { call:close } W:requests=[] } } else { if(R:requests) { '
+        'call:_flush_outbufs_below_high_watermark } if() { } call:close with(requests_lock) { R:requests '
+        'if(R:connected R:requests) { call:add_task } elif(R:connected) { call:send_continue } } } '
+        'if(R:connected) { call:pull_trigger }',
     "channel.HTTPChannel.write_soon":
-        "if(R:connected) { } if() { with(outbuf_lock) { call:_flush_outbufs_below_high_watermark if(R:connected) { } "
-        "if() { } else { if() { } } if() { call:_flush_exception if() { call:pull_trigger } } } }",
+        'if(R:connected) { } if() { with(outbuf_lock) { call:_flush_outbufs_below_high_watermark '
+        'if(R:connected) { } if() { } else { if() { } } if(R:total_outbufs_len) { call:_flush_exception '
+        'if(R:total_outbufs_len) { call:pull_trigger } } } }',
     "channel.HTTPChannel._flush_outbufs_below_high_watermark":
-        "if() { with(outbuf_lock) { call:_flush_exception if() { call:pull_trigger } while(R:connected) { call:pull_trigger } } }",
+        'if(R:total_outbufs_len) { with(outbuf_lock) { call:_flush_exception if() { call:pull_trigger } '
+        'while(R:connected R:total_outbufs_len) { call:pull_trigger } } }',
     "channel.HTTPChannel.cancel":
-        "W:will_close=True W:connected=False W:requests=[]",
+        'W:will_close=True W:connected=False W:requests=[]',
     "server.BaseWSGIServer.maintenance":
-        "for() { if(R:requests) { W:will_close=True } }",
+        'for() { if(R:requests) { W:will_close=True } }',
     "task.ThreadedTaskDispatcher.handler_thread":
-        "while() { with(lock) { while() { } if() { } } try { call:service } except(BaseException) { } }",
+        'while() { with(lock) { while() { } if() { } } try { call:service } except(BaseException) { } }',
     "task.ThreadedTaskDispatcher.add_task":
-        "with(lock) { if() { } }",
+        'with(lock) { if() { } }',
     "wasyncore.dispatcher.recv":
-        "try { if() { call:handle_close } else { } } except(OSError) { if() { call:handle_close } else { } }",
+        'try { if() { call:handle_close } else { } } except(OSError) { if() { call:handle_close } else { } }',
     "wasyncore.dispatcher.send":
-        "try { } except(OSError) { if() { } elif() { if() { call:handle_close } } else { } }",
+        'try { } except(OSError) { if() { } elif() { if() { call:handle_close } } else { } }',
     "wasyncore.dispatcher.close":
-        "W:connected=False if() { try { call:close } except(OSError) { if() { } } }",
+        'W:connected=False if() { try { call:close } except(OSError) { if() { } } }',
 }
 
 
